@@ -75,6 +75,7 @@ def role_named(d, name_eq):
 # very template the composite harness uses)
 
 PROVED = {}        # (ns, which) -> True once `checker accepts <=> wf` was proved for that template instance
+RETKIND = {}       # (ns, which) -> 'none' | 'arg': what the checker returns on acceptance (must be uniform for the lemma to apply)
 
 
 def attach(desc, envelope, sig_wf=None, key=None):
@@ -115,7 +116,10 @@ def checker_lemma_factory(build_env, key, mk_case=None):
                 wit = mk(m)
                 from pysym.hutil import predicted
                 wit['predicted'] = predicted(out)
-            return record(eng, out, obs, wit, ['accepts'] if is_ret(out) else ['rejects'])
+            rec = record(eng, out, obs, wit, ['accepts'] if is_ret(out) else ['rejects'])
+            if is_ret(out):
+                rec['retkind'] = 'none' if out[1] is None else ('arg' if out[1] is envelope else 'other')
+            return rec
         return harness
     return f
 
@@ -140,7 +144,7 @@ def checker_override():
                 else:
                     return it.call_interp(real, [md], {})
                 if it.eng.fork(z3.And(wf(it.eng, desc), sig_ok)):
-                    return None
+                    return md if RETKIND.get(desc.get('lemma_key')) == 'arg' else None
                 e = ValueError('(lemma) not well-formed delegating metadata')
                 e.abstract_class = ('TypeError', 'ValueError')
                 raise PyExc(e, None, real.__qualname__)
